@@ -71,6 +71,9 @@ def check_case(pts, t):
         exk = float(x1 * y2 - y1 * x2) / speed ** 3
         # rounding of the cancelling numerator x'y'' - y'x'' is proportional to |x'y''| + |y'x''|
         noise = 1e-9 * float(abs(x1 * y2) + abs(y1 * x2)) / speed ** 3
+        # ... and the second differences themselves carry an absolute rounding error of a few ulps of the coordinate magnitude
+        # (they can be pure rounding noise for a straight or degree-elevated curve, whose true curvature is 0)
+        noise += 1e-12 * max(1.0, oc.maxabs(pts)) * float(abs(x1) + abs(y1)) / speed ** 3
         if abs(k - exk) > 1e-7 * abs(exk) + noise + 1e-300:
             return "curvature %r differs from (x'y''-y'x'')/(x'^2+y'^2)^1.5 = %r" % (k, exk)
     return None
